@@ -44,6 +44,10 @@ where
     xpay: bool,
 }
 
+/// Delay between attempts to ask the node about a payment whose fate is not
+/// known yet.
+const RETRY_DELAY: Duration = Duration::from_secs(1);
+
 impl<R> PayPaymentProvider<R>
 where
     R: ClnRpc,
@@ -55,6 +59,27 @@ where
             retry_for: retryfor,
             rpc,
             xpay,
+        }
+    }
+}
+
+impl<R> PayPaymentProvider<R>
+where
+    R: ClnRpc + Send + Sync,
+{
+    /// Like `wait_payment`, but when the node cannot be asked it retries
+    /// instead of giving up: after `pay` has been issued, parts may be in
+    /// flight, so 'the payment failed' may only be reported once the node has
+    /// confirmed that nothing is pending or complete.
+    async fn wait_payment_until_known(&self, payment_hash: sha256::Hash) -> Option<Vec<u8>> {
+        loop {
+            match self.wait_payment(payment_hash).await {
+                Ok(maybe_preimage) => return maybe_preimage,
+                Err(e) => {
+                    warn!("failed to wait for payment, retrying: {:?}", e);
+                    tokio::time::sleep(RETRY_DELAY).await;
+                }
+            }
         }
     }
 }
@@ -110,7 +135,7 @@ where
             Ok(resp) => resp,
             Err(e) => {
                 debug!("pay returned error {:?}", e);
-                return match self.wait_payment(req.payment_hash).await? {
+                return match self.wait_payment_until_known(req.payment_hash).await {
                     Some(preimage) => Ok(preimage),
                     None => Err(anyhow!(e.to_string())),
                 };
@@ -125,7 +150,7 @@ where
             PayStatus::COMPLETE => return Ok(resp.payment_preimage.to_vec()),
             PayStatus::PENDING => {
                 warn!("payment is pending after pay returned");
-                return match self.wait_payment(req.payment_hash).await? {
+                return match self.wait_payment_until_known(req.payment_hash).await {
                     Some(preimage) => Ok(preimage),
                     None => Err(anyhow!("payment failed")),
                 };
@@ -133,7 +158,7 @@ where
             PayStatus::FAILED => {
                 if let Some(warning) = resp.warning_partial_completion {
                     warn!("pay returned partial completion: {}", warning);
-                    return match self.wait_payment(req.payment_hash).await? {
+                    return match self.wait_payment_until_known(req.payment_hash).await {
                         Some(preimage) => Ok(preimage),
                         None => Err(anyhow!("payment failed")),
                     };
